@@ -95,7 +95,7 @@ def run(ck, replay=None):
                       'of items the producer may have started: all of them unless a block around the pipeline was ended, then at least the item '
                       'the consumer was at and not the last one.  Each program is rendered and run by the real interpreter (function call last: '
                       'exit number observed; followed by another command: caller carries on); printed tags, exit number and producer items are '
-                      'compared.  A stage program that disagrees is run again alone with 3 s per item before it counts.  '
+                      'compared.  A seeded sample of the nest / call programs runs once more with every pipe logging its own open/close/append events, validated against StreamUse.tla.  A stage program that disagrees is run again alone with 3 s per item before it counts.  '
                       'non-trivial = at least one control statement; distinct = different programs.')
     ck.assumptions += ['blocks are named as murex names them: foreach, while, for, if, and the function name',
                        'loops are foreach over a JSON array literal, while with a counter incremented at the top of the body, for { i = 1; $i <= n; i = $i + 1 }',
@@ -159,6 +159,13 @@ def run(ck, replay=None):
                                                    or c['family'] == 'nest' and p['inner'] not in ('none', p['k1']) and p['c2'] == 'break-' + p['k1']) \
                         and sum(1 for s_ in ck.cov['samples'] if s_.get('family') == c['family']) < 2:
                     ck.sample({'family': c['family'], 'src': src, 'stdout': [''.join(t) for t in c['out']], 'exit': c['exit'], 'producer_items': c['tk']})
+    # StreamUse.tla on the nest / call programs: break, continue and return end blocks by cancelling them (KillForks, Done)
+    from . import streamuselib as SU
+    import random
+    rng = random.Random(ck.seed)
+    sujobs = [{'id': j['id'], 'src': j['src']} for j in jobs['nest']]
+    rng.shuffle(sujobs)
+    SU.run_binding(ck, sujobs[:(500 if ck.tier == 'quick' else 100000)], perturb=ck.seed * 100 + 7, tag='su')
     ck.cov['programs_agreeing_by_family'] = fam
     ck.cov['distinct_nontrivial'] = len(nontriv)
     ck.cov['exhaustive'] = True
